@@ -2366,6 +2366,7 @@ int cg_node_family_name_write( const char* node_name, const char* family_name )
         cgi_error( "Family path too long (%s, size %ld)", family_name, strlen(family_name) );
         return CG_ERROR;
     }
+    if (cgi_check_mode(cg->filename, cg->mode, CG_MODE_WRITE)) return CG_ERROR;
 
     /* check for valid posit */
 
